@@ -316,6 +316,12 @@ func unitStreams(calls []Tok) (streams [][]byte, mtus []int, nalsPerCall [][][]b
 }
 
 func unitCallsTok(c *RNG, mtu int, calls [][][]byte) TList {
+	return unitCallsTokMTU(c, mtu, calls, true)
+}
+
+// unitCallsTokMTU: with vary off every call uses exactly the MTU given (the extreme-size cases aim
+// at one MTU each; a 64 KiB unit at MTU 5 costs the list-based model minutes and gigabytes)
+func unitCallsTokMTU(c *RNG, mtu int, calls [][][]byte, vary bool) TList {
 	cs := TList{}
 	for _, nals := range calls {
 		us := TList{}
@@ -323,7 +329,7 @@ func unitCallsTok(c *RNG, mtu int, calls [][][]byte) TList {
 			us = append(us, TList{TI(int64(c.Pick(3, 4))), TBytes(n)})
 		}
 		m := mtu
-		if c.Intn(4) == 0 { // the MTU may change from call to call
+		if c.Intn(4) == 0 && vary { // the MTU may change from call to call
 			m = c.Pick(3, 4, 5, 16, 100, 1200, 3+c.Intn(60))
 		}
 		cs = append(cs, TList{TI(int64(m)), us})
@@ -360,7 +366,7 @@ func runH264Lossless(disable, avc bool, calls []Tok) Outcome {
 // The payloader output is also fed to H264Packet (op 1002) and compared with the units.
 func emitH264Extremes(c *RNG, emit func(op int, toks ...Tok)) {
 	run := func(disable bool, mtu int, nals [][]byte) {
-		emit(1006, TI(b2i(disable)), TI(b2i(c.Bool())), unitCallsTok(c, mtu, [][][]byte{nals}))
+		emit(1006, TI(b2i(disable)), TI(b2i(c.Bool())), unitCallsTokMTU(c, mtu, [][][]byte{nals}, false))
 	}
 	run(false, 3, [][]byte{genH264Nal(c, 5, 2+257)})
 	run(false, 4, [][]byte{genH264Nal(c, 1, 2+2*520)})
